@@ -57,14 +57,6 @@ example : coeff (Expr.eval (.add (.lit (ofList ["A", "B"]))
 example : Net.row ["C", "A", "B"] (Expr.eval (.sub (.lmul 2 (.lit (ofDict [("B", 2), ("C", 1)])))
     (.lit (ofList ["A", "B"]))) : Current ℚ) = [2, -1, 3] := by decide +kernel
 
-/-- all `Current` literals of an expression have distinct keys -/
-def LitsNodup : Expr K → Prop
-  | .lit c => c.keys.Nodup
-  | .add l r => LitsNodup l ∧ LitsNodup r
-  | .sub l r => LitsNodup l ∧ LitsNodup r
-  | .lmul _ e => LitsNodup e
-  | .rmul e _ => LitsNodup e
-
 /-- the constructors of the class produce distinct keys … -/
 theorem constructors_keys_nodup (items : List (String × K)) (ids : List String) (s : String) :
     (ofDict items).keys.Nodup ∧ (ofList ids : Current K).keys.Nodup ∧
@@ -82,7 +74,11 @@ theorem eval_keys_nodup (e : Expr K) (h : LitsNodup e) : e.eval.keys.Nodup := by
 
 example : LitsNodup (.add (.lit (ofList ["A", "B", "A"])) (.lmul 2 (.lit (ofDict [("B", 2), ("C", 1)]))) :
     Expr ℚ) := by
-  refine ⟨?_, ?_⟩ <;> decide +kernel
+  refine ⟨?_, ?_⟩
+  · show (ofList ["A", "B", "A"] : Current ℚ).keys.Nodup
+    decide +kernel
+  · show (ofDict [("B", 2), ("C", 1)] : Current ℚ).keys.Nodup
+    decide +kernel
 
 end algebra
 
@@ -151,14 +147,18 @@ theorem align_pointwise (ops : List (Op K)) :
   rw [h.rows]
   simp [hi, Net.row, hj]
 
-example : let n := (Net.init : Net ℚ).run
-      [.register "C", .register "A", .register "B",
-       .add [("B", 2), ("C", 1)] 7 none, .add [("A", 1), ("Z", 1)] 3 (some "bad"),
-       .add (Current.sub [("A", 1), ("B", 1)] [("B", 2), ("C", 1)]) 8 (some "_const_0"),
-       .remove "_const_0", .register "D", .update "nope" [] 1 none,
-       .update "_const_0_v2" [("A", 4)] 9 none]
-    n.matrix = some [[0, 4, 0]] ∧ n.magnitudes = [9] ∧ n.index = ["_const_0_v2"] ∧
-      n.stations = ["C", "A", "B"] := by decide +kernel
+def exHistory : List (Op ℚ) :=
+  [.register "C", .register "A", .register "B",
+   .add [("B", 2), ("C", 1)] 7 none, .add [("A", 1), ("Z", 1)] 3 (some "bad"),
+   .add (Current.sub [("A", 1), ("B", 1)] [("B", 2), ("C", 1)]) 8 (some "_const_0"),
+   .remove "_const_0", .register "D", .update "nope" [] 1 none,
+   .update "_const_0_v2" [("A", 4)] 9 none]
+
+example : (Net.init.run exHistory).matrix = some [[0, 4, 0]] ∧
+    (Net.init.run exHistory).magnitudes = [9] ∧ (Net.init.run exHistory).index = ["_const_0_v2"] ∧
+    (Net.init.run exHistory).stations = ["C", "A", "B"] ∧
+    Net.init.trace exHistory = [none, none, none, none, some .keyError, none, none,
+      some .registration, some .keyError, none] := by decide +kernel
 
 /-- A raising operation changes nothing — with the one exception the code has:
     `update_constraint` of an EXISTING name (see `update_failure_is_removal`). -/
@@ -221,8 +221,10 @@ theorem update_failure_is_removal (n : Net K) (nm : String) (c : Current K) (l :
     rw [hst, keys_all_iff]; exact hk
   rw [if_neg this]
 
-example : ((Net.init : Net ℚ).run [.register "A", .add [("A", 1)] 5 (some "x")]).updateConstraint
-    "x" [("Z", 1)] 6 none = (⟨["A"], some [], [], []⟩, some .keyError) := by decide +kernel
+example : (((Net.init : Net ℚ).run [.register "A", .add [("A", 1)] 5 (some "x")]).updateConstraint
+    "x" [("Z", 1)] 6 none).2 = some .keyError ∧
+    (((Net.init : Net ℚ).run [.register "A", .add [("A", 1)] 5 (some "x")]).updateConstraint
+    "x" [("Z", 1)] 6 none).1.index = [] := by decide +kernel
 
 /-- Stations cannot be registered once a constraint was added — not even after every
     constraint has been removed again. -/
@@ -249,13 +251,15 @@ theorem names_nodup_add (n : Net K) (c : Current K) (l : K) (name : Option Strin
       (name.getD ("_const_" ++ toString n.index.length)) ++ "_v2" ∉ n.index) :
     (n.addConstraint c l name).1.index.Nodup := by
   have hres : Net.resolveName n.index name ∉ n.index := by
-    unfold Net.resolveName
-    have hb : (match name with | some s => s | none => "_const_" ++ toString n.index.length) =
-        name.getD ("_const_" ++ toString n.index.length) := by cases name <;> rfl
-    simp only [hb]
-    split
-    · rename_i h; exact hv h
-    · rename_i h; exact h
+    have hb : Net.resolveName n.index name =
+        if name.getD ("_const_" ++ toString n.index.length) ∈ n.index then
+          name.getD ("_const_" ++ toString n.index.length) ++ "_v2"
+        else name.getD ("_const_" ++ toString n.index.length) := by
+      cases name <;> rfl
+    rw [hb]
+    by_cases hm : name.getD ("_const_" ++ toString n.index.length) ∈ n.index
+    · rw [if_pos hm]; exact hv hm
+    · rw [if_neg hm]; exact hm
   unfold Net.addConstraint
   by_cases hk : c.keys.all (fun k => decide (k ∈ n.stations)) = true
   · rw [if_pos hk]
